@@ -24,8 +24,9 @@ type Config struct {
 	StickNum   int    `json:"stick_num"`
 	StickDen   int    `json:"stick_den"`
 	Readers    int    `json:"readers,omitempty"`
-	Strict     bool   `json:"strict"`    // observe and compare after every mutating op
-	Usability  bool   `json:"usability"` // run the usability script after every recovery (C03)
+	StableTask bool   `json:"stable_task,omitempty"` // concurrent flow: a task issuing Set/Get beside the writer and the readers
+	Strict     bool   `json:"strict"`                // observe and compare after every mutating op
+	Usability  bool   `json:"usability"`             // run the usability script after every recovery (C03)
 	CodecID    uint64 `json:"codec_id,omitempty"`
 	OWSyncsDir bool   `json:"ow_syncs_dir"` // OpenWriter handles also fsync the directory on first Sync (probed from fs/)
 }
